@@ -610,3 +610,35 @@ fn c23_decode_key_scalar_prefixes_total() {
     kani::cover!(some_err);
 }
 }
+
+stubs! {
+//@ props=C26 kind=bounded bound="byte strings of length <= 3 over the alphabet {0x00, 0x41, 0xFF} (the three classes the escape codec distinguishes); all strings: Verus unit key_escape" timeout=900
+/// Kani twin of the Verus unit on concrete strings: for every string of length <= 3 over {00, 41, FF},
+/// decode_escaped_bytes(encode_escaped_bytes(s) ++ [0x07]) == (s, |encoding|) — the consumed length stops
+/// exactly at the terminator, so the next column of a composite key is found
+#[kani::proof]
+#[kani::unwind(42)]
+fn c26_escape_inverse_alphabet() {
+    const A: [u8; 3] = [0x00, 0x41, 0xFF];
+    let mut code = 0usize;
+    while code < 40 {
+        // 1 string of length 0, 3 of length 1, 9 of length 2, 27 of length 3
+        let (n, c) = if code < 1 { (0, 0) } else if code < 4 { (1, code - 1) } else if code < 13 { (2, code - 4) } else { (3, code - 13) };
+        let s = [A[c % 3], A[(c / 3) % 3], A[(c / 9) % 3]];
+        let mut enc = FixBuf::new();
+        encode_escaped_bytes(&s[..n], &mut enc);
+        enc.push(0x07); // first byte of a following column
+        match vs::is_ok_forget(decode_escaped_bytes(&enc.b[..enc.n])) {
+            Some((v, k)) => {
+                assert!(k == enc.n - 1);
+                assert!(v.len() == n);
+                if n > 0 { assert!(v[0] == s[0] && v[n - 1] == s[n - 1]); }
+                if n > 2 { assert!(v[1] == s[1]); }
+                core::mem::forget(v);
+            }
+            None => assert!(false),
+        }
+        code += 1;
+    }
+}
+}
